@@ -45,7 +45,8 @@ Proof. exact restore_file_spec. Qed.
 
 (* the oracle used on the implementation's observation means: nothing outside the target changed *)
 Theorem C18_oracle_sound : forall c, check_C18 c = true ->
-  forall q, prefixb (c_T c) q = false -> look (fs_of_view (c_pre c)) q = look (fs_of_view (c_post c)) q.
+  (forall q, prefixb (c_T c) q = false -> look (fs_of_view (c_pre c)) q = look (fs_of_view (c_post c)) q) /\
+  c_out_xattr c = false.
 Proof. exact check_C18_sound. Qed.
 
 Print Assumptions C18_confined.
